@@ -97,9 +97,15 @@ class Cluster:
         were used during the clustering.
         """
         if self._dimensionality is None:
+            # Use the same radii that were used in the clustering
+            if self._radii is None:
+                radii = "covalent"
+            else:
+                radii = np.asarray(self._radii)[self.indices]
             self._dimensionality = matid.geometry.get_dimensionality(
                 self.get_atoms(),
                 self._bond_threshold,
                 dist_matrix_radii_mic_1x=self._get_distance_matrix_radii_mic(),
+                radii=radii,
             )
         return self._dimensionality
